@@ -9,9 +9,12 @@ package reader
 //@   ensures nonneg: !err ==> n >= 0
 
 // Reference graphs in a PDF are cyclic (/Parent <-> /Kids): the deep walk is bounded by a nesting-depth measure.
+// An indirect object that has been expanded in this walk is not expanded again (done): the cost is linear in the
+// number of objects, not in the number of paths through a graph with sharing.
 //@ func (*Reader) resolveDeep results (out, err)
 //@   property C02
 //@   decreases 101 - depth
+//@   callsite Resolve(o) requires expanded_objects_are_not_expanded_again: !(istype(obj, core.IndirectRef) && has(done, astype(obj, core.IndirectRef).Number))
 //@   loop 0:
 //@     invariant len(result) == len(v)
 
